@@ -82,7 +82,7 @@ Proof.
   assert (Hp : p <> []) by (subst; discriminate).
   destruct (rune_step p Hp) as [Hs Hl].
   destruct (decode_rune p) as [ru size]. cbn [snd] in *.
-  destruct (must && (ru =? RUNE_ERROR)); [eexists; reflexivity|].
+  destruct (must && (ru =? RUNE_ERROR) && (size <=? 1)); [eexists; reflexivity|].
   destruct ((p0 =? HASH) && negb (is_empty t)); [eexists; reflexivity|].
   (* the prev-byte checks: p[1] is read only when plen > 1 *)
   assert (Hchk : exists ok,
@@ -120,7 +120,7 @@ Proof.
   assert (Hp : p <> []) by (subst; discriminate).
   destruct (rune_step p Hp) as [Hs Hl].
   destruct (decode_rune p) as [ru size]. cbn [snd] in *.
-  destruct (ru =? RUNE_ERROR); [eexists; reflexivity|].
+  destruct ((ru =? RUNE_ERROR) && (size <=? 1)); [eexists; reflexivity|].
   destruct ((size =? 1) && (p0 =? SLASH)).
   { rewrite slice_from_ok by (subst p; rewrite len_cons; lia). cbn [bind].
     apply valid_topic_filter_impl_total. }
